@@ -385,6 +385,12 @@ func ruleRC4() Rule {
 								names = append(names, exprStr(e))
 							}
 						}
+						// emit(tok) with tok a parameter: what the callers hand in
+						if len(names) == 0 {
+							if vals, ok := c.tokenParamValues(g, tokName, call); ok {
+								names = vals
+							}
+						}
 					}
 					ok := tokName != "" && len(names) > 0
 					for _, n := range names {
@@ -2830,4 +2836,140 @@ func ruleW1() Rule {
 				rr.Bad(raw, key, bad, "the raw scanner discards the word collected so far: a word whose first character was scanned by linebreak() (`true && \\*\\x`) loses that character")
 			}
 		}}
+}
+
+// tokenParamValues lists the token constants the callers of g pass for its
+// parameter called name: constant arguments, and variables that the case
+// clause around the call pins to a list of constants.  ok is false when g has
+// no such parameter, assigns it, is not only called, or some argument is
+// neither.
+func (c *Ctx) tokenParamValues(g *core.Func, name string, use ast.Node) ([]string, bool) {
+	if g.Type.Params == nil {
+		return nil, false
+	}
+	info := g.Info()
+	idx, k := -1, 0
+	var pv *types.Var
+	for _, fld := range g.Type.Params.List {
+		for _, nm := range fld.Names {
+			if nm.Name == name {
+				idx = k
+				pv, _ = info.Defs[nm].(*types.Var)
+			}
+			k++
+		}
+	}
+	if idx < 0 || pv == nil {
+		return nil, false
+	}
+	// the parameter still has the caller's value at the use: nothing assigns it before
+	// (in the text), and no loop around the use assigns it
+	stale := false
+	isP := func(e ast.Expr) bool {
+		id, ok := ast.Unparen(e).(*ast.Ident)
+		return ok && info.Uses[id] == types.Object(pv)
+	}
+	assigns := func(n ast.Node) bool {
+		found := false
+		ast.Inspect(n, func(x ast.Node) bool {
+			switch y := x.(type) {
+			case *ast.AssignStmt:
+				for _, l := range y.Lhs {
+					if isP(l) {
+						found = true
+					}
+				}
+			case *ast.IncDecStmt:
+				if isP(y.X) {
+					found = true
+				}
+			case *ast.UnaryExpr:
+				if y.Op == token.AND && isP(y.X) {
+					found = true
+				}
+			}
+			return true
+		})
+		return found
+	}
+	ast.Inspect(g.Body, func(x ast.Node) bool {
+		if st, ok := x.(ast.Stmt); ok && st.End() <= use.Pos() {
+			if _, isBlock := st.(*ast.BlockStmt); !isBlock && assigns(st) {
+				stale = true
+			}
+		}
+		return true
+	})
+	for x := c.P.Parent(use); x != nil; x = c.P.Parent(x) {
+		switch x.(type) {
+		case *ast.ForStmt, *ast.RangeStmt:
+			if assigns(x) {
+				stale = true
+			}
+		}
+	}
+	if stale {
+		return nil, false
+	}
+	calls, complete := c.callSitesOf(g)
+	if !complete || len(calls) == 0 {
+		return nil, false
+	}
+	seen := map[string]bool{}
+	var out []string
+	for _, cs := range calls {
+		if idx >= len(cs.call.Args) {
+			return nil, false
+		}
+		arg := ast.Unparen(cs.call.Args[idx])
+		ci := cs.in.Info()
+		if tv, has := ci.Types[arg]; has && tv.Value != nil {
+			if !seen[exprStr(arg)] {
+				seen[exprStr(arg)] = true
+				out = append(out, exprStr(arg))
+			}
+			continue
+		}
+		id, isID := arg.(*ast.Ident)
+		cc := enclosingCase(c.P, cs.call)
+		if !isID || cc == nil || len(cc.List) == 0 {
+			return nil, false
+		}
+		// the clause must belong to a switch over that very variable, which is not assigned in the clause
+		sw, _ := c.P.Parent(c.P.Parent(cc)).(*ast.SwitchStmt)
+		if sw == nil || sw.Tag == nil {
+			return nil, false
+		}
+		tag, isTag := ast.Unparen(sw.Tag).(*ast.Ident)
+		if !isTag || ci.Uses[tag] != ci.Uses[id] {
+			return nil, false
+		}
+		assigned := false
+		for _, st := range cc.Body {
+			ast.Inspect(st, func(x ast.Node) bool {
+				if as, ok := x.(*ast.AssignStmt); ok && x.Pos() < cs.call.Pos() {
+					for _, l := range as.Lhs {
+						if lid, ok := ast.Unparen(l).(*ast.Ident); ok && ci.Uses[lid] == ci.Uses[id] {
+							assigned = true
+						}
+					}
+				}
+				return true
+			})
+		}
+		if assigned {
+			return nil, false
+		}
+		for _, e := range cc.List {
+			if tv, has := ci.Types[e]; !has || tv.Value == nil {
+				return nil, false
+			}
+			if !seen[exprStr(e)] {
+				seen[exprStr(e)] = true
+				out = append(out, exprStr(e))
+			}
+		}
+	}
+	sort.Strings(out)
+	return out, true
 }
